@@ -18,6 +18,8 @@ from vlib.oracles import iso
 from vlib.runner import Inconclusive, Sub, Violation
 
 PROPERTY = "C11"
+from vlib.c11_pruning import body_pruning, left_only_orbits, strat_pruning  # noqa: E402
+
 RULE_PARTS = [
     "graphs: exhaustive over all labelled graphs on 0..4 nodes (quick: n<=3 over element{C,N} x charge{0,-1} x "
     "order{absent,1,2}, n=4 over element{C,N} x order{absent,1,2}, every 8th graph on 5 nodes over element{C,N} x "
@@ -33,6 +35,11 @@ RULE_PARTS = [
     "{none, a component, AutoEst.anchor_component, arbitrary node set}, host orbits {none, exact, AutoEst}. "
     "Non-trivial = at least one match removed; distinct by the JSON case.",
 ]
+RULE_PARTS.append(
+    "rule application: (template reaction [optionally atom-map-renumbered], kind centre|full ITS, substrate own / same centre class / other, "
+    "direction, strategy) -> set of own RDKit keys of SynReactor.smarts_list with pruning vs with every raw match glued; "
+    "non-trivial = pruning removed >= 1 match"
+)
 RULE = " || ".join(RULE_PARTS)
 ASSUMPTIONS = [
     "Automorphism: a missing attribute stands for charge=0 / order=1 / a value no generated label equals (other keys)",
@@ -509,5 +516,7 @@ SUBS = [
         doc="Hypothesis graphs <= 9 nodes incl. symmetric families and twin components, generated key lists / missing attributes / refinement bound"),
     Sub("dedup", body_dedup, strategy=strat_dedup, examples={"quick": 12000, "thorough": 200000}, shards={"quick": 16, "thorough": 16},
         doc="deduplicate_matches_with_anchor on brute-force match lists: order-preserving sub-list made of the input's elements, input untouched, idempotent, one representative per documented class"),
-    # the rule-application sub-check (pruning vs gluing every raw match) is appended here
+    Sub("pruning_vs_raw", body_pruning, strategy=strat_pruning, examples={"quick": 1600, "thorough": 40000}, shards={"quick": 16, "thorough": 16},
+        doc="SynReactor with its symmetry pruning vs the same reactor fed every raw SubgraphSearchEngine match: identical sets of distinct reactions (own RDKit keys); pruned matches are a sub-list of the raw ones"),
 ]
+KNOWN_PREDICATES = dict(globals().get("KNOWN_PREDICATES", {}), left_only_orbits=left_only_orbits)
